@@ -37,7 +37,7 @@ NS == Rec[N].sc                  \* scenarios are numbered 1..NS
 VARIABLES l, E, got, sc, last
 tvars == <<vars, l, E, got, sc, last>>
 
-Window == 40
+Window == 100000   \* the whole rest of the scenario: how long a thread is descheduled before its hook logs is not bounded
 MaxEarly == 3
 
 \* a executed before b although b is logged first: only worth trying when the two do not commute
